@@ -41,11 +41,12 @@ theorem desk_sk_term (U : UrlOps) (fresh : Str → Str) (x : STerm)
   cases x with
   | iri u =>
     obtain ⟨h1, h2⟩ := hn u rfl
-    simp [skTerm, deskTerm, h1, h2]
+    simp [skTerm, skTermAt, deskTerm, h1, h2]
   | bnode l =>
     obtain ⟨h1, h2⟩ := hl l (by simp [STerm.labels])
-    simp [skTerm, deskTerm, h1, h2]
-  | lit n => rfl
+    have e : skolemizeLabelAt U defaultAuthority rdflibSkolemGenid l = skolemizeLabel U l := rfl
+    simp [skTerm, skTermAt, deskTerm, e, h1, h2]
+  | lit lex n => rfl
 
 theorem deSk_sk_eq (U : UrlOps) (fresh : Str → Str) (g : SGraph) (hn : NoGenid U g) (hl : LabelsOk U g) :
     deSkolemize U fresh (skolemize U g) = g := by
@@ -63,6 +64,285 @@ theorem deSk_sk_eq (U : UrlOps) (fresh : Str → Str) (g : SGraph) (hn : NoGenid
       desk_sk_term U fresh t.2.2 (fun u hu => hn t List.mem_cons_self u (Or.inr hu))
         (fun l hl' => hl l (by simp only [slabels, List.mem_append]; exact Or.inl (Or.inr hl')))
     simp [h1, h2]
+
+/-! ### the stateful code (`skolems` dict) acts as ONE label map per call
+
+    The only thing used about the dict is that entries are added and never changed or dropped
+    (`CacheExt`): then every term of the call is translated by the single function the FINAL dict
+    stands for.  (An eviction policy breaks exactly this.) -/
+
+/-- `c'` still has every entry of `c` -/
+def CacheExt (c c' : SkCache) : Prop := ∀ u l, clookup c u = some l → clookup c' u = some l
+
+theorem CacheExt.refl (c : SkCache) : CacheExt c c := fun _ _ h => h
+theorem CacheExt.trans {a b c : SkCache} (h1 : CacheExt a b) (h2 : CacheExt b c) : CacheExt a c :=
+  fun u l h => h2 u l (h1 u l h)
+
+theorem deskTermSt_spec (U : UrlOps) (mint : Nat → Str) (st : SkState) (x : STerm) :
+    CacheExt st.cache (deskTermSt U mint st x).2.cache ∧
+    ∀ (c'' : SkCache) (dflt : Str → Str), CacheExt (deskTermSt U mint st x).2.cache c'' →
+      (deskTermSt U mint st x).1 = deskTerm U (c''.fn dflt) x := by
+  cases x with
+  | bnode l => exact ⟨CacheExt.refl _, fun _ _ _ => rfl⟩
+  | lit lex n => exact ⟨CacheExt.refl _, fun _ _ _ => rfl⟩
+  | iri u =>
+    cases hr : isRdflibSkolem U u with
+    | true =>
+      have e1 : deskTermSt U mint st (.iri u) = (.bnode ((U.path u).drop rdflibSkolemGenid.length), st) := by
+        simp [deskTermSt, hr]
+      have e2 : ∀ f, deskTerm U f (.iri u) = .bnode ((U.path u).drop rdflibSkolemGenid.length) := by
+        intro f; simp [deskTerm, hr]
+      rw [e1]
+      exact ⟨CacheExt.refl _, fun c'' dflt _ => (e2 _).symm⟩
+    | false =>
+      cases hx : isExternalSkolem U u with
+      | false =>
+        have e1 : deskTermSt U mint st (.iri u) = (.iri u, st) := by simp [deskTermSt, hr, hx]
+        have e2 : ∀ f, deskTerm U f (.iri u) = .iri u := by intro f; simp [deskTerm, hr, hx]
+        rw [e1]
+        exact ⟨CacheExt.refl _, fun c'' dflt _ => (e2 _).symm⟩
+      | true =>
+        have e2 : ∀ f, deskTerm U f (.iri u) = .bnode (f u) := by intro f; simp [deskTerm, hr, hx]
+        cases hl : clookup st.cache u with
+        | some l =>
+          have e1 : deskTermSt U mint st (.iri u) = (.bnode l, st) := by simp [deskTermSt, hr, hx, hl]
+          rw [e1]
+          refine ⟨CacheExt.refl _, fun c'' dflt he => ?_⟩
+          rw [e2]
+          simp only [SkCache.fn, he u l hl]
+        | none =>
+          have e1 : deskTermSt U mint st (.iri u) =
+              (.bnode (mint st.next), ⟨(u, mint st.next) :: st.cache, st.next + 1⟩) := by
+            simp [deskTermSt, hr, hx, hl]
+          rw [e1]
+          refine ⟨?_, fun c'' dflt he => ?_⟩
+          · intro u' l' h'
+            show clookup ((u, mint st.next) :: st.cache) u' = some l'
+            unfold clookup
+            split
+            · next e => subst e; rw [hl] at h'; cases h'
+            · exact h'
+          · have : clookup c'' u = some (mint st.next) := he u _ (by simp [clookup])
+            rw [e2]
+            simp only [SkCache.fn, this]
+
+theorem deSkolemizeSt_spec (U : UrlOps) (mint : Nat → Str) : ∀ (g : SGraph) (st : SkState),
+    CacheExt st.cache (deSkolemizeSt U mint st g).2.cache ∧
+    ∀ (c'' : SkCache) (dflt : Str → Str), CacheExt (deSkolemizeSt U mint st g).2.cache c'' →
+      (deSkolemizeSt U mint st g).1 = deSkolemize U (c''.fn dflt) g := by
+  intro g
+  induction g with
+  | nil => intro st; exact ⟨CacheExt.refl _, fun _ _ _ => rfl⟩
+  | cons t g ih =>
+    intro st
+    obtain ⟨e1, s1⟩ := deskTermSt_spec U mint st t.1
+    obtain ⟨e2, s2⟩ := deskTermSt_spec U mint (deskTermSt U mint st t.1).2 t.2.2
+    obtain ⟨e3, s3⟩ := ih (deskTermSt U mint (deskTermSt U mint st t.1).2 t.2.2).2
+    simp only [deSkolemizeSt]
+    refine ⟨e1.trans (e2.trans e3), fun c'' dflt he => ?_⟩
+    simp only [deSkolemize, List.map_cons]
+    rw [s1 c'' dflt (e2.trans (e3.trans he)), s2 c'' dflt (e3.trans he)]
+    have := s3 c'' dflt he
+    simp only [deSkolemize] at this
+    rw [this]
+
+/-! ### round trip through the EXTERNAL genid branch (`skolemize(authority=…, basepath="/.well-known/genid/")`):
+    the blank nodes come back with fresh labels, one per skolem IRI -/
+
+/-- renaming of blank-node labels on string-labelled graphs -/
+def STerm.rename (σ : Str → Str) : STerm → STerm
+  | .bnode l => .bnode (σ l)
+  | t => t
+
+def SGraph.rename (σ : Str → Str) (g : SGraph) : SGraph :=
+  g.map (fun t => (t.1.rename σ, t.2.1.rename σ, t.2.2.rename σ))
+
+/-- dict invariant: the values are labels minted so far and pairwise distinct -/
+structure CacheFresh (mint : Nat → Str) (st : SkState) : Prop where
+  minted : ∀ p ∈ st.cache, ∃ k, k < st.next ∧ p.2 = mint k
+  nodup : (st.cache.map (·.2)).Nodup
+
+theorem clookup_mem {c : SkCache} {u l : Str} (h : clookup c u = some l) : (u, l) ∈ c := by
+  induction c with
+  | nil => simp [clookup] at h
+  | cons p c ih =>
+    obtain ⟨k, v⟩ := p
+    unfold clookup at h
+    split at h
+    · next hk => subst hk; injection h with h; subst h; exact List.mem_cons_self
+    · exact List.mem_cons_of_mem _ (ih h)
+
+theorem clookup_inj {c : SkCache} (hv : (c.map (·.2)).Nodup) {a b v : Str}
+    (ha : clookup c a = some v) (hb : clookup c b = some v) : a = b := by
+  induction c with
+  | nil => simp [clookup] at ha
+  | cons p c ih =>
+    obtain ⟨k, w⟩ := p
+    simp only [List.map_cons, List.nodup_cons] at hv
+    have hmem : ∀ {x : Str}, clookup c x = some v → v ∈ c.map (·.2) :=
+      fun h => List.mem_map.mpr ⟨_, clookup_mem h, rfl⟩
+    unfold clookup at ha hb
+    split at ha
+    · next hka =>
+      split at hb
+      · next hkb => rw [← hka, ← hkb]
+      · injection ha with ha; subst ha; exact absurd (hmem hb) hv.1
+    · next hka =>
+      split at hb
+      · injection hb with hb; subst hb; exact absurd (hmem ha) hv.1
+      · exact ih hv.2 ha hb
+
+theorem deskTermSt_fresh {U : UrlOps} {mint : Nat → Str} (hm : Function.Injective mint) {st : SkState}
+    (hf : CacheFresh mint st) (x : STerm) : CacheFresh mint (deskTermSt U mint st x).2 := by
+  cases x with
+  | bnode l => exact hf
+  | lit lex n => exact hf
+  | iri u =>
+    cases hr : isRdflibSkolem U u with
+    | true => have : deskTermSt U mint st (.iri u) =
+                  (.bnode ((U.path u).drop rdflibSkolemGenid.length), st) := by simp [deskTermSt, hr]
+              rw [this]; exact hf
+    | false =>
+      cases hx : isExternalSkolem U u with
+      | false => have : deskTermSt U mint st (.iri u) = (.iri u, st) := by simp [deskTermSt, hr, hx]
+                 rw [this]; exact hf
+      | true =>
+        cases hl : clookup st.cache u with
+        | some l => have : deskTermSt U mint st (.iri u) = (.bnode l, st) := by simp [deskTermSt, hr, hx, hl]
+                    rw [this]; exact hf
+        | none =>
+          have e1 : deskTermSt U mint st (.iri u) =
+              (.bnode (mint st.next), ⟨(u, mint st.next) :: st.cache, st.next + 1⟩) := by
+            simp [deskTermSt, hr, hx, hl]
+          rw [e1]
+          constructor
+          · intro p hp
+            rcases List.mem_cons.mp hp with rfl | hp
+            · exact ⟨st.next, Nat.lt_succ_self _, rfl⟩
+            · obtain ⟨k, hk, e⟩ := hf.minted p hp
+              exact ⟨k, Nat.lt_succ_of_lt hk, e⟩
+          · show ((u, mint st.next) :: st.cache |>.map (·.2)).Nodup
+            rw [List.map_cons, List.nodup_cons]
+            refine ⟨?_, hf.nodup⟩
+            intro hmem
+            obtain ⟨p, hp, e⟩ := List.mem_map.mp hmem
+            obtain ⟨k, hk, e'⟩ := hf.minted p hp
+            have : mint k = mint st.next := by rw [← e', e]
+            have := hm this
+            omega
+
+theorem deSkolemizeSt_fresh {U : UrlOps} {mint : Nat → Str} (hm : Function.Injective mint) :
+    ∀ (g : SGraph) (st : SkState), CacheFresh mint st → CacheFresh mint (deSkolemizeSt U mint st g).2 := by
+  intro g
+  induction g with
+  | nil => intro st h; exact h
+  | cons t g ih =>
+    intro st h
+    simp only [deSkolemizeSt]
+    exact ih _ (deskTermSt_fresh hm (deskTermSt_fresh hm h t.1) t.2.2)
+
+theorem deskTermSt_present (U : UrlOps) (mint : Nat → Str) (st : SkState) (u : Str)
+    (hr : isRdflibSkolem U u = false) (hx : isExternalSkolem U u = true) :
+    ∃ v, clookup (deskTermSt U mint st (.iri u)).2.cache u = some v := by
+  cases hl : clookup st.cache u with
+  | some l =>
+    have : deskTermSt U mint st (.iri u) = (.bnode l, st) := by simp [deskTermSt, hr, hx, hl]
+    rw [this]; exact ⟨l, hl⟩
+  | none =>
+    have e1 : deskTermSt U mint st (.iri u) =
+        (.bnode (mint st.next), ⟨(u, mint st.next) :: st.cache, st.next + 1⟩) := by
+      simp [deskTermSt, hr, hx, hl]
+    rw [e1]; exact ⟨mint st.next, by simp [clookup]⟩
+
+theorem deSkolemizeSt_present (U : UrlOps) (mint : Nat → Str) : ∀ (g : SGraph) (st : SkState),
+    ∀ t ∈ g, ∀ u, (t.1 = .iri u ∨ t.2.2 = .iri u) → isRdflibSkolem U u = false →
+      isExternalSkolem U u = true → ∃ v, clookup (deSkolemizeSt U mint st g).2.cache u = some v := by
+  intro g
+  induction g with
+  | nil => intro st t ht; cases ht
+  | cons t0 g ih =>
+    intro st t ht u hu hr hx
+    simp only [deSkolemizeSt]
+    have e2 := (deskTermSt_spec U mint (deskTermSt U mint st t0.1).2 t0.2.2).1
+    have e3 := (deSkolemizeSt_spec U mint g (deskTermSt U mint (deskTermSt U mint st t0.1).2 t0.2.2).2).1
+    rcases List.mem_cons.mp ht with rfl | ht
+    · rcases hu with hu | hu
+      · obtain ⟨v, hv⟩ := deskTermSt_present U mint st u hr hx
+        rw [← hu] at hv
+        exact ⟨v, e3 u v (e2 u v hv)⟩
+      · obtain ⟨v, hv⟩ := deskTermSt_present U mint (deskTermSt U mint st t.1).2 u hr hx
+        rw [← hu] at hv
+        exact ⟨v, e3 u v hv⟩
+    · exact ih _ t ht u hu hr hx
+
+theorem mem_slabels {g : SGraph} {l : Str} :
+    l ∈ slabels g ↔ ∃ t ∈ g, t.1 = .bnode l ∨ t.2.2 = .bnode l := by
+  have hlab : ∀ x : STerm, l ∈ x.labels ↔ x = .bnode l := by
+    intro x; cases x <;> simp [STerm.labels, eq_comm]
+  induction g with
+  | nil => simp [slabels]
+  | cons t g ih =>
+    simp only [slabels, List.mem_append, hlab, ih, List.mem_cons]
+    constructor
+    · rintro ((h | h) | ⟨t', ht', h⟩)
+      · exact ⟨t, Or.inl rfl, Or.inl h⟩
+      · exact ⟨t, Or.inl rfl, Or.inr h⟩
+      · exact ⟨t', Or.inr ht', h⟩
+    · rintro ⟨t', (rfl | ht'), h⟩
+      · exact Or.inl h
+      · exact Or.inr ⟨t', ht', h⟩
+
+/-- the round trip through the external branch is a relabelling by an injective label map -/
+theorem external_roundtrip (U : UrlOps) (mint : Nat → Str) (hm : Function.Injective mint) (auth base : Str)
+    (g : SGraph) (st : SkState) (hf : CacheFresh mint st) (hn : NoGenid U g)
+    (hp : ∀ t ∈ g, t.2.1.labels = [])
+    (hx : ∀ l ∈ slabels g, isRdflibSkolem U (skolemizeLabelAt U auth base l) = false ∧
+      isExternalSkolem U (skolemizeLabelAt U auth base l) = true)
+    (hinj : ∀ a ∈ slabels g, ∀ b ∈ slabels g,
+      skolemizeLabelAt U auth base a = skolemizeLabelAt U auth base b → a = b) :
+    ∃ ρ : Str → Str, (∀ a ∈ slabels g, ∀ b ∈ slabels g, ρ a = ρ b → a = b) ∧
+      (deSkolemizeSt U mint st (skolemizeAt U auth base g)).1 = g.rename ρ := by
+  let fin := (deSkolemizeSt U mint st (skolemizeAt U auth base g)).2
+  let σ : Str → Str := fin.cache.fn (fun u => u)
+  refine ⟨fun l => σ (skolemizeLabelAt U auth base l), ?_, ?_⟩
+  · intro a ha b hb hab
+    have pres : ∀ l ∈ slabels g, ∃ v, clookup fin.cache (skolemizeLabelAt U auth base l) = some v := by
+      intro l hl
+      obtain ⟨t, ht, h⟩ := mem_slabels.mp hl
+      apply deSkolemizeSt_present U mint (skolemizeAt U auth base g) st
+        (skTermAt U auth base t.1, t.2.1, skTermAt U auth base t.2.2)
+        (List.mem_map.mpr ⟨t, ht, rfl⟩) _ _ (hx l hl).1 (hx l hl).2
+      rcases h with h | h
+      · left; simp [h, skTermAt]
+      · right; simp [h, skTermAt]
+    obtain ⟨va, hva⟩ := pres a ha
+    obtain ⟨vb, hvb⟩ := pres b hb
+    have e : va = vb := by simpa [σ, SkCache.fn, hva, hvb] using hab
+    subst e
+    exact hinj a ha b hb (clookup_inj (deSkolemizeSt_fresh hm _ st hf).nodup hva hvb)
+  · rw [(deSkolemizeSt_spec U mint (skolemizeAt U auth base g) st).2 fin.cache (fun u => u) (CacheExt.refl _)]
+    simp only [deSkolemize, skolemizeAt, SGraph.rename, List.map_map]
+    apply List.map_congr_left
+    intro t ht
+    have term : ∀ x : STerm, (∀ u, x = .iri u → isRdflibSkolem U u = false ∧ isExternalSkolem U u = false) →
+        (∀ l, x = .bnode l → l ∈ slabels g) →
+        deskTerm U σ (skTermAt U auth base x) = x.rename (fun l => σ (skolemizeLabelAt U auth base l)) := by
+      intro x h1 h2
+      cases x with
+      | iri u => obtain ⟨a1, a2⟩ := h1 u rfl; simp [skTermAt, deskTerm, STerm.rename, a1, a2]
+      | lit lex n => rfl
+      | bnode l =>
+        obtain ⟨a1, a2⟩ := hx l (h2 l rfl)
+        simp [skTermAt, deskTerm, STerm.rename, a1, a2]
+    have hpred : t.2.1.rename (fun l => σ (skolemizeLabelAt U auth base l)) = t.2.1 := by
+      have := hp t ht
+      cases h : t.2.1 with
+      | bnode l => rw [h] at this; simp [STerm.labels] at this
+      | iri u => rfl
+      | lit lex n => rfl
+    simp only [Function.comp]
+    rw [term t.1 (fun u hu => hn t ht u (Or.inl hu)) (fun l hl => mem_slabels.mpr ⟨t, ht, Or.inl hl⟩),
+      term t.2.2 (fun u hu => hn t ht u (Or.inr hu)) (fun l hl => mem_slabels.mpr ⟨t, ht, Or.inr hl⟩), hpred]
 
 /-! ### the concrete `urllib` instance satisfies the contract -/
 
